@@ -156,7 +156,9 @@ fn gen_short(rng: &mut Rng, miri: bool, classes: &[&'static str]) -> Program {
             }
             ops.push(*rng.pick(&cand));
         }
-        threads.push(ThreadPlan { sender: s.then(|| rng.chance(1, 2)), receiver: r.then(|| rng.chance(1, 2)), ops, reps: 1, until_end: false, spin_obs: false, tight: false });
+        // a third of the threads run their script back to back (only takes effect when no call in it can block)
+        let tight = !miri && rng.chance(1, 3);
+        threads.push(ThreadPlan { sender: s.then(|| rng.chance(1, 2)), receiver: r.then(|| rng.chance(1, 2)), ops, reps: 1, until_end: false, spin_obs: false, tight });
     }
     Program { cap, class, async_ctor: rng.chance(1, 2), threads, delay_permille: *rng.pick(&[0, 100, 300, 600]) }
 }
